@@ -106,6 +106,42 @@ def _loads_shape(fn):
     return empty_first, whole
 
 
+def _empty_body_rejected(fn):
+    """_marshaled_dispatch(self, data, ..): the try statement whose body calls `loads` has an `except Exception` handler that
+    does not re-raise, and a statement of that body *before* the one calling loads is `if not <data>: raise <exception>`
+    (no else branch; `<data>` is the method's first parameter, never rebound before)."""
+    params = [a.arg for a in fn.args.args if a.arg != "self"]
+    if not params:
+        return None
+    data = params[0]
+
+    def calls_loads(node):
+        return any(isinstance(c, ast.Call) and ((isinstance(c.func, ast.Attribute) and c.func.attr == "loads")
+                                                or (isinstance(c.func, ast.Name) and c.func.id == "loads")) for c in ast.walk(node))
+
+    for t in (n for n in ast.walk(fn) if isinstance(n, ast.Try)):
+        idx = [i for i, st in enumerate(t.body) if calls_loads(st)]
+        if not idx:
+            continue
+        handled = any((h.type is None or (isinstance(h.type, ast.Name) and h.type.id in ("Exception", "BaseException")))
+                      and not any(isinstance(x, ast.Raise) for st in h.body for x in ast.walk(st)) for h in t.handlers)
+        if not handled:
+            return False
+        for st in t.body[:idx[0]]:
+            if (isinstance(st, ast.If) and not st.orelse and isinstance(st.test, ast.UnaryOp) and isinstance(st.test.op, ast.Not)
+                    and isinstance(st.test.operand, ast.Name) and st.test.operand.id == data
+                    and st.body and isinstance(st.body[-1], ast.Raise) and st.body[-1].exc is not None):
+                # `data` must not have been rebound before the test
+                before = [x for x in fn.body if x.lineno < t.lineno]
+                for b in before:
+                    for n in ast.walk(b):
+                        if isinstance(n, ast.Assign) and any(isinstance(x, ast.Name) and x.id == data for tg in n.targets for x in ast.walk(tg)):
+                            return False
+                return True
+        return False
+    return None
+
+
 def facts(src):
     out = []
     gm = src.func("jsonlib", "JsonHandler.get_methods")
@@ -115,9 +151,11 @@ def facts(src):
                     "and no keyword): the parser runs with its default, strict settings", json_value=sp))
     ld = src.func("jsonrpc", "loads")
     sh = _loads_shape(ld) if ld is not None else None
-    out.append(Fact("loadsEmptyIsNone", "Bool", None if sh is None else lean_bool(sh[0]), ["C05", "C02"],
-                    "jsonrpc.loads: `if data == \"\": return None` comes first (the empty body is not parsed)",
-                    json_value=None if sh is None else sh[0]))
+    md = src.func("SimpleJSONRPCServer", "SimpleJSONRPCDispatcher._marshaled_dispatch")
+    eb = _empty_body_rejected(md) if md is not None else None
+    out.append(Fact("emptyBodyRejectedInParseTry", "Bool", None if eb is None else lean_bool(eb), ["C05", "C02"],
+                    "_marshaled_dispatch: inside the try around loads (except Exception -> Fault -32700, no re-raise), before loads "
+                    "is called, `if not data: raise ...` — the empty body takes the parse-failure handler", json_value=eb))
     out.append(Fact("loadsParsesWholeBody", "Bool", None if sh is None else lean_bool(sh[1]), ["C05", "C02"],
                     "jsonrpc.loads: jloads is called once, on the parameter `data` itself, which is never rebound (no strip / "
                     "slice / decode in front of the parser)", json_value=None if sh is None else sh[1]))
